@@ -56,4 +56,16 @@ Props(R) ==
              \/ s.core[s.pc].op \in {"DIV","MOD"} /\ \E k \in 1..Len(R.ev) : R.ev[k][1] = "Term")
      /\ s.core[s.pc].op = "SPL" => Len(R.push) = 2 /\ R.push[1] = (s.pc + 1) % M
 StepProps == s.stage = 1 => Props(ExecTask(s.core, s.pc, s))
+
+\* Anti-vacuity probes: each of these "invariants" MUST be violated (TLC exit 12) - the violation is a witness that the
+\* antecedents of the bounds above are reachable in this model (a write exactly at the write distance, a jump exactly at
+\* the read distance, a step on which folding changes the outcome).
+VacWrite == ~(s.stage = 1 /\ s.WL < s.M /\ s.WL \div 2 > 0 /\
+              LET R == ExecTask(s.core, s.pc, s) IN
+              \E a \in 0..s.M-1 : R.core[a] # s.core[a] /\ CDist(a, s.pc, s.M) = s.WL \div 2)
+VacRead  == ~(s.stage = 1 /\ s.RL < s.M /\ s.RL \div 2 > 0 /\
+              LET R == ExecTask(s.core, s.pc, s) IN
+              \E k \in 1..Len(R.push) : R.push[k] \notin {(s.pc + 1) % s.M, (s.pc + 2) % s.M} /\ CDist(R.push[k], s.pc, s.M) = s.RL \div 2)
+VacFold  == ~(s.stage = 1 /\ (s.RL < s.M \/ s.WL < s.M) /\
+              LET R == ExecTask(s.core, s.pc, s)  N == ExecTaskNoFold(s.core, s.pc, s.M) IN R.core # N.core \/ R.push # N.push)
 =============================================================================
